@@ -125,6 +125,20 @@ def _check_levels(pck, plot, offsets, L, maxmins, v, tag):
             if int(pck.cells[l]["offsets"][b]) != offsets[l][b]:
                 v.append(f"{tag}: level {l} box {b} offset {pck.cells[l]['offsets'][b]} != {offsets[l][b]}")
                 break
+        # the per-file and per-box views of the same header data: every (file, byte offset, index range) triple the level
+        # header states, each exactly once
+        want = sorted((f"Cell_D_{lev['files'][b]:05d}", int(offsets[l][b]), tuple(lev["boxes"][b][0]), tuple(lev["boxes"][b][1])) for b in range(nb))
+        try:
+            got_f = sorted((os.path.basename(str(bf)), int(o), tuple(int(x) for x in i[0]), tuple(int(x) for x in i[1]))
+                           for bf, offs, idxs in pck.bybinfile(l) for o, i in zip(offs, idxs))
+            got_b = sorted((os.path.basename(str(d["bfile"])), int(d["off"]), tuple(int(x) for x in d["indexes"][0]), tuple(int(x) for x in d["indexes"][1]))
+                           for d in pck.bybox(l))
+            if got_f != want:
+                v.append(f"{tag}: level {l}: the per-file view (bybinfile) pairs files, offsets and index ranges as {got_f[:3]}..., the level header states {want[:3]}...")
+            if got_b != want:
+                v.append(f"{tag}: level {l}: the per-box view (bybox) yields {got_b[:3]}..., the level header states {want[:3]}...")
+        except Exception as e:
+            v.append(f"{tag}: level {l}: the per-file / per-box views raised {type(e).__name__}: {e}")
         if maxmins:
             if "mins" not in pck.cells[l] or "maxs" not in pck.cells[l]:
                 v.append(f"{tag}: level {l}: min/max tables not exposed")
